@@ -10,7 +10,7 @@ import (
 // touch the subscriber counter of the events the process was subscribed to?
 
 func init() {
-	generators = append(generators, generator{name: "Event", run: genEvent, fallback: "namespace ErgoVerif.Gen.Event\ndef terminationUpdatesCounter : Bool := false\nend ErgoVerif.Gen.Event\n"})
+	generators = append(generators, generator{name: "Event", run: genEvent, fallback: "namespace ErgoVerif.Gen.Event\ndef terminationUpdatesCounter : Bool := false\ndef publishDedupes : Bool := false\nend ErgoVerif.Gen.Event\n"})
 }
 
 func genEvent() (string, error) {
@@ -47,5 +47,59 @@ func genEvent() (string, error) {
 		}
 		return true
 	})
-	return fmt.Sprintf("namespace ErgoVerif.Gen.Event\n/-- unregisterProcess decrements eventOwner.consumers for the subscriptions of the terminated process -/\ndef terminationUpdatesCounter : Bool := %s\nend ErgoVerif.Gen.Event\n", leanBool(res)), nil
+	dd, err := publishDedupes()
+	if err != nil {
+		return "", err
+	}
+	return fmt.Sprintf("namespace ErgoVerif.Gen.Event\n/-- unregisterProcess decrements eventOwner.consumers for the subscriptions of the terminated process -/\ndef terminationUpdatesCounter : Bool := %s\n"+
+		"/-- RouteSendEvent skips a consumer it has already served in this fan-out (`if seen[pid] { continue }; seen[pid] = true` heading the loop over the consumers) -/\ndef publishDedupes : Bool := %s\nend ErgoVerif.Gen.Event\n", leanBool(res), leanBool(dd)), nil
+}
+
+// publishDedupes: in node/core.go RouteSendEvent, the loop `for _, pid := range consumers` starts with
+// `if M[pid] { continue }` followed by `M[pid] = true`, before anything is sent.
+func publishDedupes() (bool, error) {
+	f, err := parseFile("node/core.go")
+	if err != nil {
+		return false, err
+	}
+	fd := funcDecl(f, "node", "RouteSendEvent")
+	if fd == nil {
+		return false, fmt.Errorf("node.RouteSendEvent not found")
+	}
+	res := false
+	ast.Inspect(fd.Body, func(n ast.Node) bool {
+		rs, ok := n.(*ast.RangeStmt)
+		if !ok || selName(rs.X) != "consumers" || len(rs.Body.List) < 2 {
+			return true
+		}
+		v, ok := rs.Value.(*ast.Ident)
+		if !ok {
+			return true
+		}
+		isIdx := func(e ast.Expr) string {
+			ix, ok := e.(*ast.IndexExpr)
+			if !ok {
+				return ""
+			}
+			if id, ok := ix.Index.(*ast.Ident); !ok || id.Name != v.Name {
+				return ""
+			}
+			return selName(ix.X)
+		}
+		ifs, ok := rs.Body.List[0].(*ast.IfStmt)
+		if !ok || ifs.Init != nil || ifs.Else != nil || len(ifs.Body.List) != 1 {
+			return true
+		}
+		m := isIdx(ifs.Cond)
+		if br, ok := ifs.Body.List[0].(*ast.BranchStmt); !ok || br.Tok.String() != "continue" || m == "" {
+			return true
+		}
+		as, ok := rs.Body.List[1].(*ast.AssignStmt)
+		if !ok || len(as.Lhs) != 1 || len(as.Rhs) != 1 || isIdx(as.Lhs[0]) != m || selName(as.Rhs[0]) != "true" {
+			return true
+		}
+		res = true
+		return false
+	})
+	return res, nil
 }
